@@ -1,7 +1,8 @@
 (** Evaluator glue for C18: runs the model on what the harness ran the real
     code on. *)
 From AGH Require Import Base.Run Model.Schedule.
-From AGH Require Export Model.ScheduleText Model.BlockedSvcHttp Model.BlockedSvcClient Model.ScheduleZone.
+From AGH Require Export Model.ScheduleText Model.BlockedSvcHttp Model.BlockedSvcClient Model.ScheduleZone
+  Model.BlockedSvcPersist.
 Local Open Scope Z_scope.
 
 Definition mk (s e : Z) := {| dr_start := s; dr_end := e |}.
@@ -34,6 +35,21 @@ Definition client_desc := (bool * bool * bool * list bytes * bytes * list (Z * Z
 Inductive req_step :=
   | RHttp (o : op) (status : Z)
   | RReq (cl : option nat) (t : Z) (offs : list (bytes * Z)) (obs : list bytes) (obs_flt : bool).
+
+(** Life-cycle histories (round 6).  Beside what [http_obs] carries, after
+    every step: the blocked_services section of the configuration file as the
+    ConfigModified callback left it (ids, "time_zone" text, the days'
+    duration texts; [None] = textually what the previous observation had), and, clock permitting, ApplyBlockedServices at the
+    instant of the run: the instant read right before the call, the offset of
+    the reported zone at it, the names produced.  A restart carries whether
+    the tz database of the host has the zone name found in the file; [None] =
+    filtering.New refused the configuration (the history ends there). *)
+Definition persisted_obs := (list bytes * bytes * list text_day)%type.
+Definition now_obs := option (Z * Z * list bytes).
+Definition life_obs := (http_obs * option persisted_obs * now_obs)%type.
+Inductive life_step :=
+  | LsReq (o : op) (ob : life_obs)
+  | LsRestart (kn : bool) (ob : option life_obs).
 
 Inductive case :=
   (* instant (ns), zone offset at that instant (s), ranges (ns), observed Contains *)
@@ -80,7 +96,12 @@ Inductive case :=
      document (zone text, day texts) *)
   | CZoneDoc (yaml : bool) (zone : bytes) (kn : bool) (fs : list field)
       (obs_err : Z) (obs_zone : bytes) (obs_days : list (Z * Z))
-      (back_zone : bytes) (back : list text_day).
+      (back_zone : bytes) (back : list text_day)
+  (* history of HTTP requests and restarts: a real DNSFilter whose
+     ConfigModified callback writes the configuration as home does, and
+     filtering.New from what was written *)
+  | CLife (known init_ids : list bytes) (init_zone : bytes) (init_days : list (Z * Z))
+      (instants : list Z) (obs0 : life_obs) (steps : list life_step).
 
 Definition eqb_zz (a b : Z * Z) := (fst a =? fst b) && (snd a =? snd b).
 
@@ -236,6 +257,69 @@ Definition zdoc_model (yaml kn : bool) (zone : bytes) (fs : list field) : zdoc_e
   decode_zdoc (fun _ => kn) (if yaml then parse_yaml_dur else parse_json_dur)
     {| zd_zone := zone; zd_fields := fs |}.
 
+Definition eqb_field (a b : field) : bool :=
+  let '(i, e, t) := a in let '(j, f, u) := b in
+  Nat.eqb i j && Bool.eqb e f && eqb_bytes t u.
+
+Definition pdoc_ok (d : pdoc) (p : persisted_obs) : bool :=
+  let '(ids, zone, days) := p in
+  eqb_list eqb_bytes (pd_ids d) ids && eqb_bytes (zd_zone (pd_sched d)) zone &&
+  eqb_list eqb_field (zd_fields (pd_sched d)) (flatten_days 0 days).
+
+Definition now_ok (known : list bytes) (s : bsvc) (n : now_obs) : bool :=
+  match n with
+  | None => true
+  | Some (t, o, l) =>
+      eqb_list eqb_bytes (apply known s (contains (sc_days (bs_sched s)) (fun _ => o) t)) l
+  end.
+
+Definition life_obs_ok (known : list bytes) (instants : list Z) (st : Z) (l : ylife)
+    (prev : option sched_obs) (pp : option persisted_obs) (ob : life_obs)
+  : bool * option sched_obs * option persisted_obs :=
+  let '(h, p, n) := ob in
+  let (ok, cur) := http_obs_ok known instants st (lf_mem l) prev h in
+  let curp := match p with Some x => Some x | None => pp end in
+  (ok && match curp with Some x => pdoc_ok (lf_disk l) x | None => false end &&
+   now_ok known (lf_mem l) n, cur, curp).
+
+(** Index of the first step whose observation differs, or -1. *)
+Fixpoint life_first_bad (known : list bytes) (instants : list Z) (l : ylife) (prev : option sched_obs)
+    (pp : option persisted_obs) (steps : list life_step) (i : Z) : Z :=
+  match steps with
+  | [] => -1
+  | LsReq o ob :: steps =>
+      let (st, l') := ystep known o l in
+      let '(ok, cur, curp) := life_obs_ok known instants st l' prev pp ob in
+      if ok then life_first_bad known instants l' cur curp steps (i + 1) else i
+  | LsRestart kn ob :: steps =>
+      match yrestart (fun _ => kn) known l, ob with
+      | Some l', Some ob =>
+          let '(ok, cur, curp) := life_obs_ok known instants st_ok l' prev pp ob in
+          if ok then life_first_bad known instants l' cur curp steps (i + 1) else i
+      | None, None => match steps with [] => -1 | _ => i end
+      | _, _ => i
+      end
+  end.
+
+Fixpoint life_trace (known : list bytes) (l : ylife) (steps : list life_step) : list (Z * Z) :=
+  match steps with
+  | [] => []
+  | LsReq o _ :: steps =>
+      let (st, l') := ystep known o l in
+      (st, Z.of_nat (length (bs_ids (lf_mem l')))) :: life_trace known l' steps
+  | LsRestart kn _ :: steps =>
+      match yrestart (fun _ => kn) known l with
+      | Some l' => (0, Z.of_nat (length (bs_ids (lf_mem l')))) :: life_trace known l' steps
+      | None => [(-1, -1)]
+      end
+  end.
+
+Definition life_case_bad (known ids : list bytes) (zone : bytes) (days : list (Z * Z))
+    (instants : list Z) (o0 : life_obs) (steps : list life_step) : Z :=
+  let l := ylife_init (http_init ids zone days) in
+  let '(ok, cur, curp) := life_obs_ok known instants st_ok l None None o0 in
+  if ok then life_first_bad known instants l cur curp steps 1 else 0.
+
 Definition case_ok (c : case) : bool :=
   match c with
   | CContains t o w obs =>
@@ -277,6 +361,8 @@ Definition case_ok (c : case) : bool :=
             (marshal_text (if yaml then tu_string else print_ms_text) (sc_days sc)) back
       | inl _ => true
       end
+  | CLife known ids zone days instants o0 steps =>
+      life_case_bad known ids zone days instants o0 steps =? -1
   end.
 
 Definition mismatches := Base.Run.mismatches case_ok.
@@ -315,4 +401,7 @@ Definition explain (c : case) :=
   | CZoneDoc yaml zone kn fs _ _ _ _ _ =>
       let r := zdoc_model yaml kn zone fs in
       (zdoc_res_code r, match r with inr sc => marshal_yaml (sc_days sc) | _ => [] end)
+  | CLife known ids zone days instants o0 steps =>
+      (life_case_bad known ids zone days instants o0 steps,
+       life_trace known (ylife_init (http_init ids zone days)) steps)
   end.
